@@ -335,7 +335,7 @@ def sub_bases(ctx):
         cases += [{"kind": 8, "n": n, "dim": d}, {"kind": 9, "n": n, "dim": d}]
     cases += [{"kind": 3, "n": 1, "dim": 2, "csys": "1qubit"}, {"kind": 3, "n": 2, "dim": 2, "csys": "2qubit"}, {"kind": 3, "n": 3, "dim": 2, "csys": "3qubit"},
               {"kind": 7, "n": 1, "dim": 3, "csys": "1qutrit"}, {"kind": 9, "n": 2, "dim": 3, "csys": "2qutrit"}]
-    ctx.sample("bases", cases[5]); ctx.run_cases("bases", chk_basis, cases)
+    ctx.sample("bases", cases[5]); ctx.run_cases("bases", FNS["bases"], cases)
 
 
 # ================================================================== 2. states
@@ -475,7 +475,7 @@ def sub_states(ctx):
         for i in range(0, len(full), 40):
             cases.append({"sys": sysname, "names": full[i:i + 40], "exact": True})
     cases.append({"legacy": True})
-    ctx.sample("states", {"sys": "2qubit", "names": lists["2qubit"][:3]}); ctx.run_cases("states", chk_states_any, cases)
+    ctx.sample("states", {"sys": "2qubit", "names": lists["2qubit"][:3]}); ctx.run_cases("states", FNS["states"], cases)
     ctx.note("states: all %d listed (system, name) pairs generated and compared with the table as pure vector and density matrix; all object forms, model vec_of_pure and the exact PSD "
              "decision on %d of them (quick tier: every 1-/2-qubit and 1-qutrit name, the non-product 3-qubit / 2-qutrit names and a seeded sample of 8 product names each; thorough tier: all)" % (
                  sum(len(v) for v in lists.values()), nfull))
@@ -585,7 +585,7 @@ def sub_povms(ctx):
             else:
                 cases.append({"sys": sysname, "name": n, "light": True})
     cases.append({"legacy": True})
-    ctx.sample("povms", cases[4]); ctx.run_cases("povms", chk_povm_any, cases)
+    ctx.sample("povms", cases[4]); ctx.run_cases("povms", FNS["povms"], cases)
     ctx.note("povms: all %d listed (system, name) pairs generated as matrices (and pure_state_vectors for rank-1 names) and compared with the table; vectors / Povm object / "
              "model vec_of_pure / exact PSD decision on %d of them (quick tier: every 1-/2-qubit and 1-qutrit name and a seeded sample of 5 per 8-/9-dimensional system; thorough tier: all)" % (
                  sum(len(v) for v in lists.values()), nfull))
@@ -754,7 +754,7 @@ def sub_gates(ctx):
                 if cs["sys"] == "2qubit" and cs.get("esys"):
                     cs["elphys"] = False        # the Lindbladian verdict (0.1 s) is asked on the default ids only
     cases.append({"legacy": True})
-    ctx.sample("gates", cases[20]); ctx.run_cases("gates", chk_gate_any, cases)
+    ctx.sample("gates", cases[20]); ctx.run_cases("gates", FNS["gates"], cases)
 
 
 # ================================================================== 4b. id bookkeeping of the multi-qubit gates (permute_pauli_symbol)
@@ -799,7 +799,7 @@ def sub_permute(ctx):
             for ids in itertools.permutations(base):
                 syms = allsyms if n <= 3 else sorted(ctx.rng.sample(allsyms, ctx.n(12, 64)))
                 cases.append({"ids": list(ids), "symbols": syms})
-    ctx.sample("permute", {"ids": cases[10]["ids"], "symbols": cases[10]["symbols"][:4]}); ctx.run_cases("permute", chk_permute, cases)
+    ctx.sample("permute", {"ids": cases[10]["ids"], "symbols": cases[10]["symbols"][:4]}); ctx.run_cases("permute", FNS["permute"], cases)
 
 
 # ================================================================== 5. textbook action triples
@@ -884,7 +884,7 @@ def sub_triples(ctx):
         for cs in cases:
             if cs["gate"][0] == 3:          # 3-qubit gates: Gate objects built without quara's own physicality verdict (see sub_gates)
                 cs["verdict"] = False
-    ctx.sample("triples", cases[0]); ctx.run_cases("triples", chk_triple, cases)
+    ctx.sample("triples", cases[0]); ctx.run_cases("triples", FNS["triples"], cases)
     ctx.note("triples: %d (gate, input, output) triples, the list is read from the Coq table whose validity is theorem C17_triples_hold" % len(cases))
 
 
@@ -959,7 +959,7 @@ def sub_mprocess(ctx):
         for cs in cases:
             if cs["sys"] == "2qutrit":
                 cs["verdict"] = False
-    ctx.sample("mprocess", cases[3]); ctx.run_cases("mprocess", chk_mprocess, cases)
+    ctx.sample("mprocess", cases[3]); ctx.run_cases("mprocess", FNS["mprocess"], cases)
 
 
 # ================================================================== 7. state ensembles
@@ -985,7 +985,7 @@ def chk_ensemble(ctx, case):
 
 def sub_ensembles(ctx):
     cases = [{"name": n} for n in Q().et.get_state_ensemble_names()]
-    ctx.sample("ensembles", cases[0]); ctx.run_cases("ensembles", chk_ensemble, cases)
+    ctx.sample("ensembles", cases[0]); ctx.run_cases("ensembles", FNS["ensembles"], cases)
 
 
 # ================================================================== 8. unknown / mutated names must raise
@@ -1108,7 +1108,7 @@ def sub_unknown(ctx):
     for f in ("state", "povm", "gate", "mprocess", "effective_lindbladian", "state_ensemble", "mode"):
         for bad in ("", "stat", "State", "gate_", "unitary", "object"):
             cases.append({"family": f, "object_name": bad})
-    ctx.sample("unknown_names", cases[3]); ctx.run_cases("unknown_names", chk_unknown_any, cases)
+    ctx.sample("unknown_names", cases[3]); ctx.run_cases("unknown_names", FNS["unknown_names"], cases)
 
 
 # ================================================================== 9. 2-qutrit gates (about 39k names): pool of workers
@@ -1145,7 +1145,7 @@ def _w_check(arg):
             lm = np.asarray(q.lt.generate_effective_lindbladian_mat_from_gate_name(name, dims, ids))
             el = q.lt.generate_effective_lindbladian_from_gate_name(name, c, ids, is_physicality_required=False)
     except Exception as e:
-        return [("gate_typical.generate_gate_object_from_gate_name_object_name", "listed-name-not-generable", "2-qutrit gate %r: %s: %s" % (name, type(e).__name__, str(e)[:200]))]
+        return [("gate_typical.generate_gate_object_from_gate_name_object_name", "listed-name-not-generable", "2-qutrit gate %r: %s: %s" % (name, type(e).__name__, str(e)[:200]), name)]
     if all(p in tbl for p in name.split("_")):
         if mx(hm, ham_of(name, tbl)) > TTOL * 10:
             out.append(("effective_lindbladian_typical.generate_hamiltonian_mat_from_gate_name", "differs-from-table", "Hamiltonian of %r differs from (pi/4) x table by %.3g" % (name, mx(hm, ham_of(name, tbl)))))
@@ -1280,17 +1280,32 @@ def sub_2qutrit(ctx):
     # model-tied sample in the main process (hs_of_kraus at d = 9 costs seconds)
     tied = ctx.rng.sample(singles, ctx.n(1, 2)) + ctx.rng.sample(doubles, ctx.n(1, 12))
     ctx.sample("gates_2qutrit", {"name": tied[-1], "model": True})
-    ctx.run_cases("gates_2qutrit", chk_2qutrit, [{"name": n, "model": True, "verdict": verdict} for n in tied])
+    ctx.run_cases("gates_2qutrit", FNS["gates_2qutrit"], [{"name": n, "model": True, "verdict": verdict} for n in tied])
     ctx.note("2-qutrit gates: Hamiltonian of %d of %d names against the Coq table (all of them in the thorough tier); %d names through quara's dispatchers on %d worker processes, "
              "levels (0 unitary + Hamiltonian, 1 + Gate object, 2 all seven object forms): %s; %d tied to the Coq model (ham2t table, hs_of_kraus); Gate.is_physical() verdicts %s" % (
         len(hnames), len(allnames), len(names), nproc, {k: sum(1 for v in level.values() if v == k) for k in (0, 1, 2)}, len(tied), "asked" if verdict else "not asked in the quick tier (CP/TP certified through HS = hs_of_kraus [U], U unitary, TP row)"))
     ctx.note("2-qutrit gates wall (s): tables %.1f, worker pool %.1f, model-tied sample %.1f" % (t1 - t0, t2 - t1, time.time() - t2))
 
 
+def _guard(sub, fn):
+    """quara signals several errors with `assert`; the runner re-raises AssertionError (it is reserved for harness self-checks), so an
+    assertion failing inside the implementation is turned into a violation here instead of aborting the run"""
+    def wrapped(ctx, case):
+        try:
+            return fn(ctx, case)
+        except AssertionError as e:
+            import traceback
+            tb = traceback.format_exc()
+            ctx.violation(sub, sub, "exception:AssertionError", "unexpected AssertionError: %s" % (str(e)[:200] or tb.strip().splitlines()[-2].strip()[:200]),
+                          {"case": case, "traceback": tb[-1500:]})
+    return wrapped
+
+
 SUBS = [("bases", sub_bases), ("states", sub_states), ("povms", sub_povms), ("gates", sub_gates), ("permute", sub_permute), ("triples", sub_triples),
         ("mprocess", sub_mprocess), ("ensembles", sub_ensembles), ("unknown_names", sub_unknown), ("gates_2qutrit", sub_2qutrit)]
 FNS = {"bases": chk_basis, "states": chk_states_any, "povms": chk_povm_any, "gates": chk_gate_any, "permute": chk_permute, "triples": chk_triple, "mprocess": chk_mprocess,
        "ensembles": chk_ensemble, "unknown_names": chk_unknown_any, "gates_2qutrit": chk_2qutrit}
+FNS = {k: _guard(k, f) for k, f in FNS.items()}
 
 
 def _timed(name, fn):
@@ -1304,13 +1319,18 @@ def _timed(name, fn):
 
 
 def run(ctx):
-    ctx.rule = ("complete enumeration of every get_*_names* list x listed system (1, 2, 3 qubits, 1, 2 qutrits) x object_name form x id order; "
-                "2-qutrit gate names sampled (seeded) in the quick tier, all in the thorough tier; unknown names = seeded single-character mutations of listed "
-                "names plus names of the other catalogues; non-trivial = everything except identity gates / fixed-point triples / mutated names that happen to be valid; "
-                "distinct = distinct (system, name, ids, form)")
+    ctx.rule = ("complete enumeration of every get_*_names* list x listed system (1, 2, 3 qubits, 1, 2 qutrits) x id order against the textbook tables; "
+                "every object_name form, model tie and exact PSD decision for every name in the thorough tier and, in the quick tier, for every name on the "
+                "systems of dimension <= 4 and a seeded sample on the 8- / 9-dimensional systems (see the notes); 2-qutrit gate names: Hamiltonian against the table "
+                "for all names (thorough) / a seeded 3000 + all single-base-matrix names (quick), dispatchers on 5074 / 60 names; "
+                "unknown names = seeded single-character mutations of listed names, names of the other catalogues and hyphenated / truncated spellings; "
+                "non-trivial = everything except identity gates / fixed-point triples / sorted id orders and constant symbols of the permutation check / "
+                "mutated names that happen to be valid; distinct = distinct (system, name, ids, form)")
     ctx.assumptions = ["C17: the tables of Model/C17_Tables.v are the textbook meaning of the names (trusted spec, proved self-consistent in Props/C17.v)",
                        "C17: Hamiltonian / Lindbladian exponentials are compared numerically (own Taylor series vs the implementation), not derived; "
-                       "CP of 8- and 9-dimensional gates is certified through the Kraus form HS = hs_of_kraus [U] (NumPy; Coq model on a sample), not by an exact PSD decision"]
+                       "CP of 8- and 9-dimensional gates is certified through the Kraus form HS = hs_of_kraus [U] (NumPy; Coq model on a sample), not by an exact PSD decision",
+                       "C17: quick tier only - quara's own Gate / MProcess physicality verdict is not asked at dimension 8 and 9 (objects built with is_physicality_required=False; "
+                       "physicality established by the harness: U unitary, HS = hs_of_kraus [U], TP row / Choi eigenvalues); the thorough tier asks every verdict"]
     flow.standard_run(ctx, [(name, _timed(name, fn)) for name, fn in SUBS])
     ctx.note("wall / cpu time per sub-check (s): " + ", ".join("%s %.1f/%.1f" % kv for kv in _cache.get("times", [])))
 
